@@ -42,7 +42,7 @@ class Recorder:
             raise Stop()
 
 
-def run_python(src, max_events=40):
+def run_python(src, max_events=40, with_completion=False):
     """-> list of events ('s', pin, logic type code, value) | ('yield',) | ('sleep', v) | ('hcf',)"""
     rec = Recorder(max_events)
     ns = {"db": _Dev(rec, 6), "math": math}
@@ -58,10 +58,14 @@ def run_python(src, max_events=40):
     for f in ("floor", "ceil", "sqrt", "sin", "cos"):
         ns[f] = getattr(math, f)
     ns["select"] = lambda c, a, b: a if c else b
+    rec.complete = False
     try:
         exec(compile(src, "<witness>", "exec"), ns)
+        rec.complete = True          # the script reached its end: nothing may follow
     except Stop:
         pass
+    if with_completion:
+        return rec.events, rec.complete
     return rec.events
 
 
@@ -85,8 +89,9 @@ def machine_events(trace_text):
     return out
 
 
-def agree(py, mach):
-    """the Python trace (complete, or cut at max_events) must be a prefix of / equal to the machine's"""
+def agree(py, mach, complete=False):
+    """the Python trace (cut at max_events) must be a prefix of the machine's; when the script reached its
+    end (complete) the machine must produce exactly these effects and nothing after them"""
     n = min(len(py), len(mach))
     for i in range(n):
         a, b = py[i], mach[i]
@@ -96,6 +101,8 @@ def agree(py, mach):
             if abs(float(x) - float(y)) > 1e-9 * max(1.0, abs(float(x))):
                 return i
     if len(mach) < len(py):
+        return n
+    if complete and len(mach) > len(py):
         return n
     return None
 
@@ -109,7 +116,7 @@ def load_corpus():
     return out
 
 
-def stream(run, texts, vectors, events=16, fuel=500, name="pyref"):
+def stream(run, texts, vectors, events=16, fuel=500, name="pyref", kind="pyref"):
     """Every text (a device-read-free program) under every option set: the emitted code, run on the Coq
     machine, must produce the effects CPython produces for the same text.  A difference is reported with
     kind 'pyref' and the witness name (open findings are keyed by that name)."""
@@ -132,13 +139,13 @@ def stream(run, texts, vectors, events=16, fuel=500, name="pyref"):
     expected = {}
     for (wname, vn, src), r, tr in zip([k[0] for k in keep], [k[1] for k in keep], traces):
         if wname not in expected:
-            expected[wname] = run_python(src, events)
-        py = expected[wname]
+            expected[wname] = run_python(src, events, with_completion=True)
+        py, complete = expected[wname]
         mach = machine_events(tr)
         run.count("pyref_runs")
-        d = agree(py, mach)
+        d = agree(py, mach, complete)
         if d is not None:
             run.violation(f"the emitted code does not produce the effects CPython produces for the source (witness {wname}, option set {vn}, first difference at effect {d})",
-                          {"kind": "pyref", "witness": wname, "option_set": vn, "source": src, "code": r["code"],
+                          {"kind": kind, "witness": wname, "script_ends": complete, "option_set": vn, "source": src, "code": r["code"],
                            "python_effects": [list(e) for e in py], "machine_effects": [list(e) for e in mach[:len(py) + 4]],
                            "first_difference": d})
